@@ -1,5 +1,5 @@
 """C03 — a variable always holds a value of its declared type."""
-from checks.stcore_common import COMMON_TRUSTED, make_extra, translate_faults
+from checks.stcore_common import COMMON_TRUSTED, make_extra, make_replay, translate_faults
 
 SPEC = {
     "id": "C03",
@@ -22,6 +22,7 @@ SPEC = {
 }
 
 extra = make_extra("C03")
+replay = make_replay("C03")
 
 MANIFEST = {
     "technique": 'Lean 4 invariant proof (store typing preserved by every statement, FOR control update and well-typed input write, at every cycle boundary incl. after faulted cycles) under a decidable guard + counterexamples + differential correspondence + tag/range oracle on the real storage dump',
